@@ -316,7 +316,7 @@ def k6(i0, i1, i2, req):
 
 
 # K7: whole-schema round trip json_schema.parse(json_schema.emit(ir)) with Optional parameters that carry non-None defaults ------------------
-@ob("C06", "K7.schema_roundtrip", {"i": R(-2, 2), "b": BOOL, "hasdoc": BOOL, "n": R(1, 5)}, T=300, funcs=["cdd.json_schema.emit.json_schema", "cdd.json_schema.parse.json_schema", EMIT, PARSE],
+@ob("C06", "K7.schema_roundtrip", {"i": R(-2, 2), "b": BOOL, "hasdoc": BOOL, "n": R(1, 5)}, enum=True, T=300, funcs=["cdd.json_schema.emit.json_schema", "cdd.json_schema.parse.json_schema", EMIT, PARSE],
     bound="1..5 parameters out of: Optional[int]=i (i in -2..2), Optional[str]='s', Optional[bool]=b, int=3, Optional[float] without default; prose present or not: "
           "names, order, types (Optional-ness), defaults come back; required == non-Optional names; a second emission lists the same required")
 def k7(i, b, hasdoc, n):
@@ -419,7 +419,7 @@ NAMES9 = ("g", "loader_kwargs", "kwargs", "args", "x_kwargs_y", "self", "cls", "
 KINDS9 = (("dict", None), ("int", 3), ("Optional[str]", "s"), ("Literal['np', 'tf']", "tf"), ("bool", None), ("Optional[dict]", None))
 
 
-@ob("C06", "K9.names", {"n": R(0, len(NAMES9) - 1), "k": R(0, len(KINDS9) - 1), "second": BOOL}, T=900, tpath=60,
+@ob("C06", "K9.names", {"n": R(0, len(NAMES9) - 1), "k": R(0, len(KINDS9) - 1), "second": BOOL}, enum=True, T=900, tpath=60,
     funcs=["cdd.json_schema.emit.json_schema", "cdd.json_schema.parse.json_schema", EMIT, PARSE],
     bound="one parameter named ANY of %r with type/default ANY of %r, first or second in the interface (solver-enumerated): listed in required exactly when not Optional, "
           "and parse(emit(ir)) returns the same names, order, types and defaults" % (NAMES9, KINDS9))
